@@ -143,14 +143,21 @@ impl Check for C09 {
             .chain(ops::families(tier).iter().map(|f| json!({"family": f.name(), "cases": f.count()})))
             .collect();
         Meta {
-            rule: "Literal part: every spelling of each bounded family (see bounds.families) is compiled alone as `fn f() -> T { spelling }` (parse + typecheck), accepted ones are compiled again together and f() is compared with the value decoded independently from the text; a spelling inside the documented grammar must be accepted, a documented keyword used as an identifier must be rejected, other spellings are judged only if accepted. A literal case is non-trivial when it was judged (value compared, or rejection demanded). Operator part: every sequence of k binary operators over the 13 (optionally with a unary operator on a non-empty subset of operands): a sequence with a comparison chain or an &&/|| mixture must fail to compile under all 2^(k+1) int/bool operand typings; any other sequence is compiled unparenthesised and fully parenthesised by the reference grouping for every operand typing that is well typed under that grouping and both are called on every input vector (int operands over {-3..3}, {-2..2} with six int operands; bool operands over both values) whose reference evaluation has no zero divisor; an operator program is non-trivial when its result differs between at least two input vectors.".into(),
+            rule: "Literal part: every spelling of each bounded family (see bounds.families) is compiled alone as `fn f() -> T { spelling }` (parse + typecheck), accepted ones are compiled again together and f() is compared with the value decoded independently from the text; a spelling inside the documented grammar must be accepted, a documented keyword used as an identifier must be rejected, other spellings are judged only if accepted. A literal case is non-trivial when it was judged (value compared, or rejection demanded). Operator part: every sequence of k binary operators over the 13 (optionally with a unary operator on a non-empty subset of operands): a sequence with a comparison chain or an &&/|| mixture must fail to compile under the int/bool operand typings of bounds.forbidden_sequence_typings; any other sequence is compiled unparenthesised and fully parenthesised by the reference grouping for every operand typing that is well typed under that grouping and both are called on every input vector (int operands over {-3..3}; over {-2..2} when five and {-2,-1,1,3} when six operands are integers, which only happens for k >= 4; bool operands over both values) whose reference evaluation has no zero divisor; an operator program is non-trivial when its result differs between at least two input vectors.".into(),
             assumptions: vec![
                 "unicode-ident (the version in /repo/Cargo.lock) is the trusted reference for XID_Start / XID_Continue".into(),
                 "out-of-range integer literals, f32 literals outside the normal range, the rounding path of f32 literals, u64 literals above i64::MAX, octets with leading zeros and whether a prefix keeps host bits are left open by the documentation and not judged".into(),
                 "integer division/remainder by zero is C10's finding: input vectors with a zero divisor under the reference grouping are skipped".into(),
             ],
             bounds: json!({"families": fams, "operators": ops::OPS,
-                           "max_binary_operators": tier.pick(3, 5), "max_binary_operators_with_unary": tier.pick(2, 3)}),
+                           "max_binary_operators": tier.pick(3, 5), "max_binary_operators_with_unary": tier.pick(2, 3),
+                           "int_literal_digits": 3, "hex_digits": 3,
+                           "fstring_text_symbols": ["a", "é", "漢", "𝄞", " ", "{{", "}}", "\\n"],
+                           "fstring_max_text_length_by_interpolations": tier.pick([3, 2, 1], [4, 3, 2]),
+                           "line_continuation_whitespace_run": tier.pick(2, 3),
+                           "identifier_characters": tier.pick("all ASCII + up to 64 per (XID_Start, XID_Continue, UTF-8 length) class, as first and as second character", "every Unicode scalar value as first and as second character"),
+                           "forbidden_sequence_typings": "all 2^(k+1) for k <= 3; all-int, all-bool and every typing well typed under one of 6 fallback groupings for k >= 4",
+                           "comments": tier.pick("one comment at every token gap", "one or two comments at every (pair of) token gap(s)")}),
             states_are: "distinct spellings / operator sequences (with unary mask)".into(),
             transitions_are: "compilations (parse+typecheck or full) and calls of compiled functions".into(),
         }
